@@ -20,6 +20,7 @@ inductive Err where
   | range    -- Dune::RangeError
   | parser   -- Dune::ParameterTreeParserError
   | help     -- Dune::HelpRequest
+  | io       -- Dune::IOError (the input stream failed; fixes/C12_badstream.patch)
   | fuel
   deriving DecidableEq, Repr, Inhabited
 
@@ -143,6 +144,15 @@ def subPath (failIfMissing : Bool) : List Str → Tree → Except Err Tree
       | none => subPath failIfMissing rest .empty
       | some s => subPath failIfMissing rest s
 
+/-- the non-const `sub(key)`: creates the missing groups on the way (empty), throws when a component is a value -/
+def mkSubPath : List Str → Tree → Except Err Tree
+  | [], t => .ok t
+  | k :: rest, .node vals subs =>
+    if aHas k vals then .error .range
+    else match mkSubPath rest ((aGet? k subs).getD .empty) with
+      | .error e => .error e
+      | .ok s' => .ok (.node vals (aSet k s' subs))
+
 def comps (key : Str) : List Str := splitOnC '.' key
 
 def Tree.set (t : Tree) (key value : Str) : Except Err Tree := setPath (comps key) value t
@@ -150,6 +160,7 @@ def Tree.hasKey (t : Tree) (key : Str) : Except Err Bool := hasKeyPath (comps ke
 def Tree.hasSub (t : Tree) (key : Str) : Except Err Bool := hasSubPath (comps key) t
 def Tree.get? (t : Tree) (key : Str) : Option Str := getPath (comps key) t
 def Tree.sub (t : Tree) (key : Str) (failIfMissing : Bool) : Except Err Tree := subPath failIfMissing (comps key) t
+def Tree.mkSub (t : Tree) (key : Str) : Except Err Tree := mkSubPath (comps key) t
 
 /-- `get<T>(key)`: RangeError when the key is absent or the text is rejected by `Parser<T>` -/
 def Tree.getAs {α} (parse : Str → Option α) (t : Tree) (key : Str) : Except Err α :=
@@ -244,6 +255,14 @@ def parseINI (doc : Str) (t : Tree) (ow : Bool) : Except Err Tree :=
   match parseLines ow (splitOnC '\n' doc) ⟨[], [], t⟩ with
   | .error e => .error e
   | .ok st => .ok st.tree
+
+/-- `readINITree` on a stream that delivers the first `n` bytes of `doc` and then fails (badbit; after
+    fixes/C12_badstream.patch): the line in progress is processed as if the input ended there, the loops stop
+    because `in.good()` is false, and the read error is reported — unless an error of the text came first -/
+def parseBad (doc : Str) (n : Nat) (t : Tree) (ow : Bool) : Except Err Tree :=
+  match parseINI (doc.take n) t ow with
+  | .error e => .error e
+  | .ok _ => .error .io
 
 /-! ## 4. the documented dialect -/
 
@@ -452,6 +471,12 @@ def extractWord (s : Str) : Option (Str × Str) :=
   let w := s1.takeWhile (fun c => !isSpaceC c)
   if w = [] then none else some (w, s1.dropWhile (fun c => !isSpaceC c))
 
+/-- `s >> c` for a `char`: skip blanks, then one character -/
+def extractChar (s : Str) : Option (Char × Str) :=
+  match skipWs s with
+  | [] => none
+  | c :: r => some (c, r)
+
 /-- the generic `Parser<T>::parse`: one extraction, then `char dummy; s >> dummy` must fail at end of input,
     i.e. nothing but blanks may follow -/
 def parseScalar {α} (extract : Str → Option (α × Str)) (s : Str) : Option α :=
@@ -546,39 +571,69 @@ def roundHalfEven (num den : Nat) : Nat :=
   let r := num % den
   if 2 * r < den then f else if 2 * r > den then f + 1 else if f % 2 = 0 then f else f + 1
 
-/-- IEEE-754 binary64 nearest to `p/q > 0` (ties to even) as its 63 low bits; `none` when it rounds to
-    infinity (which `operator>>` reports as failbit).  glibc's `strtod` is correctly rounded. -/
-def roundToDouble (p q : Nat) : Option Nat :=
+/-- parameters of an IEEE-754 binary interchange format: `mb` significand bits (hidden bit included), `eb` exponent
+    field bits.  binary64 = ⟨53, 11⟩, binary32 = ⟨24, 8⟩ -/
+structure BinFmt where
+  mb : Nat
+  eb : Nat
+  deriving Repr
+
+def binary64 : BinFmt := ⟨53, 11⟩
+def binary32 : BinFmt := ⟨24, 8⟩
+
+/-- exponent of the unit in the last place of the subnormals: `3 - 2^(eb-1) - mb` (-1074, -149) -/
+def BinFmt.uMin (f : BinFmt) : Int := 3 - (2 ^ (f.eb - 1) : Nat) - (f.mb : Nat)
+
+/-- the number nearest to `p/q > 0` in the format (ties to even) as its bit pattern without the sign bit;
+    `none` when it rounds to infinity (which `operator>>` reports as failbit).  glibc's `strtod/strtof` are
+    correctly rounded. -/
+def roundToBin (f : BinFmt) (p q : Nat) : Option Nat :=
   let e0 : Int := (Nat.log2 p : Int) - (Nat.log2 q : Int)
   -- p/q ≥ 2^e0 ?
   let ge : Bool := if e0 ≥ 0 then p ≥ q * 2 ^ e0.toNat else p * 2 ^ (-e0).toNat ≥ q
   let E : Int := if ge then e0 else e0 - 1
-  let u : Int := if E - 52 ≥ -1074 then E - 52 else -1074
+  let u : Int := if E - (f.mb - 1 : Nat) ≥ f.uMin then E - (f.mb - 1 : Nat) else f.uMin
   let m := if u ≥ 0 then roundHalfEven p (q * 2 ^ u.toNat) else roundHalfEven (p * 2 ^ (-u).toNat) q
-  let (m, u) := if m = 2 ^ 53 then (2 ^ 52, u + 1) else (m, u)
-  if m < 2 ^ 52 then some m       -- subnormal or zero (u = -1074)
+  let (m, u) := if m = 2 ^ f.mb then (2 ^ (f.mb - 1), u + 1) else (m, u)
+  if m < 2 ^ (f.mb - 1) then some m       -- subnormal or zero (u = uMin)
   else
-    let biased := u + 1075
-    if biased ≥ 2047 then none else some (biased.toNat * 2 ^ 52 + (m - 2 ^ 52))
+    let biased := u - f.uMin + 1
+    if biased ≥ (2 ^ f.eb - 1 : Nat) then none else some (biased.toNat * 2 ^ (f.mb - 1) + (m - 2 ^ (f.mb - 1)))
 
-/-- the bit pattern of the double denoted by the lexed text; `none` = overflow -/
-def FloatLex.eval (f : FloatLex) : Option Nat :=
-  let sign := if f.neg then 2 ^ 63 else 0
+def roundToDouble (p q : Nat) : Option Nat := roundToBin binary64 p q
+
+/-- the bit pattern of the number of format `b` denoted by the lexed text; `none` = overflow -/
+def FloatLex.evalB (b : BinFmt) (f : FloatLex) : Option Nat :=
+  let sign := if f.neg then 2 ^ (b.eb + b.mb - 1) else 0
   let mant := stripZeros (f.ip ++ f.fp)
   let M := digitsVal mant
   if M = 0 then some sign
   else
     let nd : Int := mant.length
     let exd := stripZeros f.ex
-    -- exponents with more than 6 significant digits are far outside the double range
+    -- exponents with more than 6 significant digits are far outside the range of both formats
     if exd.length > 6 then (if f.eneg then some sign else none)
     else
       let e : Int := (if f.eneg then -(digitsVal exd : Int) else (digitsVal exd : Int)) - (f.fp.length : Int)
       if e + nd > 310 then none
       else if e + nd < -400 then some sign
       else
-        let r := if e ≥ 0 then roundToDouble (M * 10 ^ e.toNat) 1 else roundToDouble M (10 ^ (-e).toNat)
+        let r := if e ≥ 0 then roundToBin b (M * 10 ^ e.toNat) 1 else roundToBin b M (10 ^ (-e).toNat)
         r.map (· + sign)
+
+def FloatLex.eval (f : FloatLex) : Option Nat := f.evalB binary64
+
+def extractBin (b : BinFmt) (s : Str) : Option (Nat × Str) :=
+  match extractFloatLex s with
+  | none => none
+  | some (f, rest) => match f.evalB b with
+    | none => none
+    | some v => some (v, rest)
+
+/-- `s >> x` for a `float` -/
+def extractFloat (s : Str) : Option (Nat × Str) := extractBin binary32 s
+
+def parseFloat (s : Str) : Option Nat := parseScalar extractFloat s
 
 def extractDouble (s : Str) : Option (Nat × Str) :=
   match extractFloatLex s with
